@@ -2,10 +2,36 @@
 """Regenerates MANIFEST.json from the table below."""
 import json, subprocess
 
+SEQ = "explicit-state exploration of operation/completion/drop histories on the real code against a simulated io_uring kernel (seqx)"
+SCH = "preemption-bounded exhaustive schedule exploration of real threads on the real code (schx, baton-passing scheduler at lock/atomic/syscall hooks)"
 CLAIMED = {
-    "C02": dict(technique="explicit-state exploration of operation/completion histories on the real code against a simulated io_uring kernel (seqx), reference-model oracle per operation",
+    "C01": dict(technique=SEQ + "; oracle: tracking allocator x kernel-side memory footprints",
+                text="Bounded exhaustive exploration of every history over {poll, re-poll, drop future, Ring::poll, kernel consumes, kernel completes with each outcome incl. EINTR/ECANCELED, cancel wins/loses} for ~50 operation shapes (alone and in pairs) on the real a10 code; at every free and at every kernel access the tracking allocator and the simulated kernel's footprint table are compared (use-after-free, state freed in flight, inputs changed).",
+                ref="6/C01"),
+    "C02": dict(technique=SEQ + "; reference-model oracle per operation",
                 text="Bounded exhaustive exploration: every history over {create, poll (same/fresh waker), Ring::poll, kernel completes request i with outcome o} up to the stated depth/deviation bounds is executed on the real a10 code against the simulated kernel; every poll result is compared with a per-operation FIFO reference model of what the kernel posted for that submission.",
                 ref="6/C02"),
+    "C03": dict(technique=SEQ + " plus " + SCH + "; oracle: waker log at every Ring::poll return / deadlock = lost wake-up",
+                text="Sequential: all histories of polls (same/fresh waker), drops, completions and Ring::poll for SQ sizes 1,2,4 with 1-3 operations; after every Ring::poll the waker of every pending operation whose completion was consumed, and of futures waiting for a submission slot, must have fired. Threads: task thread(s) and ring thread under every schedule up to the preemption bound; a task that is never woken although a later complete Ring::poll consumed its completion / returned with room is a violation.",
+                ref="6/C03", engine="seqx+schx"),
+    "C04": dict(technique=SCH + " plus " + SEQ + " over initial counter values incl. 2^32 wrap",
+                text="Threads: 2-3 submitter threads and a consumer (Ring::poll thread or sq-thread actor) on SQ sizes 1-2 with counters starting at 0 and 2^32-k, all schedules up to the preemption bound; the simulated kernel checks every consumed entry (no overrun, none consumed twice, none lost: every accepted operation resolves with its own result). Sequential: all submit/consume/complete histories for SQ sizes 1,2,4 and 7 initial counter values.",
+                ref="6/C04", engine="schx+seqx"),
+    "C05": dict(technique=SEQ + " with adversarial completion-queue contents (canary scribbling, bookkeeping CQEs, counter wrap)",
+                text="All batchings of operation and bookkeeping completions (user_data 0-3, CQE_F_SKIP padding) for CQ sizes 2,4 and 7 initial counter values; free CQ slots are overwritten with a canary operation's user_data before every Ring::poll; the per-operation FIFO model, 'canary never resolves' and 'CQ drained, head==tail after Ring::poll' are checked on every history.",
+                ref="6/C05"),
+    "C06": dict(technique=SEQ + "; oracle: ASYNC_CANCEL requests seen by the kernel vs. drop history, tracking allocator for leaks/double frees",
+                text="All histories with drops at every point of the life cycle of single-shot, two-step and multishot operations (alone and in pairs, SQ full and not full), both outcomes of the cancel race; every ASYNC_CANCEL must target exactly a dropped in-flight operation, and after the epilogue every allocation made by a10 must have been freed exactly once.",
+                ref="6/C06"),
+    "C07": dict(technique=SEQ + "; oracle: simulated kernel's descriptor table plus close(2) interposer",
+                text="All histories of descriptor-creating operations (open, socket, accept, multishot accept, pipe, to_direct; regular and direct), drops of the futures, of the returned AsyncFds (queue full and not full), AsyncFd::close, and standard stream handles; at the end every descriptor the kernel issued must have been closed exactly once in the way matching its kind, and fds 0-2 never.",
+                ref="6/C07"),
+    "C09": dict(technique=SEQ + " over fault sequences (EINTR/ECANCELED)^k followed by every final outcome",
+                text="For each of ~45 operation shapes: every sequence of EINTR/ECANCELED completions followed by every final outcome; the re-issued submission must be byte-identical (same user_data, same addresses), the caller must observe only the last attempt's result (reference model), and no cancel request may be emitted.",
+                ref="6/C09"),
+    "C11": dict(technique=SCH + "; oracle: a poller blocked in the kernel forever after a completed wake() = lost wake-up",
+                text="Poller thread (poll(None), poll(0);poll(None), poll(None);poll(None), with or without completions already published) and 1-2 waker threads on default, kernel-thread, single-issuer and defer-taskrun rings, all schedules up to the preemption bound including the sq-thread going idle; wake() after the Ring is dropped.",
+                ref="6/C11", engine="schx"),
 }
 NOT_APPLICABLE = {}
 ALL = [f"C{i:02d}" for i in range(1, 19)]
@@ -25,7 +51,8 @@ m = {
         "add_only": True,
     },
     "engines": [
-        {"name": "seqx", "path": "harness/src/seqx.rs", "serves_properties": sorted(CLAIMED), "kind_free_text": "explicit-state DFS over action histories of the real a10 code against the simulated kernel simk; nodes re-created by replay; state-key merging beyond d_all; deviation bounded"},
+        {"name": "schx", "path": "harness/src/schx.rs", "serves_properties": [p for p in sorted(CLAIMED) if "schx" in CLAIMED[p].get("engine","seqx")], "kind_free_text": "stateless preemption-bounded DFS over schedules of real OS threads (baton passing at a10's lock/try_lock/shared-word hooks and simk syscall boundaries), kernel actors scheduled like threads, deadlock detection"},
+        {"name": "seqx", "path": "harness/src/seqx.rs", "serves_properties": [p for p in sorted(CLAIMED) if "seqx" in CLAIMED[p].get("engine","seqx")], "kind_free_text": "explicit-state DFS over action histories of the real a10 code against the simulated kernel simk; nodes re-created by replay; state-key merging beyond d_all; deviation bounded"},
         {"name": "simk", "path": "harness/src/simk.rs", "serves_properties": sorted(CLAIMED), "kind_free_text": "in-process simulated io_uring kernel (memfd rings, explorer-controlled completions)"},
     ],
     "checks": [],
